@@ -250,7 +250,10 @@ req0_pipe_close(void *arg)
 	while ((ctx = nni_list_first(&p->contexts)) != NULL) {
 		nni_list_remove(&p->contexts, ctx);
 		nng_aio *aio;
-		if (ctx->retry <= 0) {
+		if ((ctx->retry <= 0) ||
+		    ((ctx->req_msg != NULL) && !ctx->req_owned)) {
+			// (also if the request went out while retries were
+			// disabled: we no longer have it to send again)
 			// If we can't retry, then just cancel the operation
 			// altogether.  We should only be waiting for recv,
 			// because we will already have sent if we are here.
@@ -420,7 +423,8 @@ req0_retry_cb(void *arg)
 	}
 
 	NNI_LIST_FOREACH (&s->retry_queue, ctx) {
-		if (ctx->retry_time > now || (ctx->req_msg == NULL)) {
+		if (ctx->retry_time > now || (ctx->req_msg == NULL) ||
+		    !ctx->req_owned) {
 			continue;
 		}
 		if (!nni_list_node_active(&ctx->send_node)) {
